@@ -163,9 +163,12 @@ class LogPolicy:
         return Allowed('ok') if ans else Denied('no')
 
 
+LEGACY_PRINCIPALS = ['system.Everyone', 'verif:principal']
+
+
 class LegacyAuthn:
     def effective_principals(self, request):
-        return ['system.Everyone']
+        return list(LEGACY_PRINCIPALS)
 
     def authenticated_userid(self, request):
         return None
@@ -185,6 +188,10 @@ class LegacyAuthz:
         self.inner = LogPolicy(world, style)
 
     def permits(self, context, principals, permission):
+        # the AUTHORIZATION policy must be asked about (this context, the effective principals, this permission)
+        if list(principals) != LEGACY_PRINCIPALS:
+            self.inner.world.log.append(['p', 99, PERM_IDS.get(permission, 9), False])
+            return False
         return self.inner.permits(None, context, permission)
 
     def principals_allowed_by_permission(self, context, permission):
@@ -936,7 +943,7 @@ DENY_CTX = [1, 2, 3, 4, 111, 112, 113, 114, 116, 117]
 def gen_config(rng, big=False):
     stmts = []
     if rng.random() < 0.82:
-        stmts.append({'k': 'policy', 'how': rng.choice(['security', 'security', 'security', 'legacy', 'ctor']),
+        stmts.append({'k': 'policy', 'how': rng.choice(['security', 'security', 'security', 'legacy', 'legacy', 'legacy', 'ctor', 'ctor']),
                       'style': rng.choice(['obj', 'obj', 'bool', 'int', 'none']), 'authz_first': rng.random() < 0.5})
     if rng.random() < 0.55:
         stmts.append({'k': 'defperm', 'perm': rng.choice(['p1', 'p1', 'p2', 'p2', 'NPR']), 'how': rng.choice(['set', 'set', 'ctor'])})
@@ -1301,6 +1308,8 @@ def run(ctx):
     stats = {}
     corpus = [c for _, c in ctx.corpus()]
     run_stream(ctx, corpus, stats, res, 'corpus')
+    # always: the same permission name checked on two contexts in one request, for every policy flavour (cheap)
+    run_stream(ctx, list(same_permission_cube()), stats, res, 'same-permission')
     if ctx.tier == 'thorough':
         # small-scope exhaustive part: every option combination of one view (see small_scope_cases)
         scope = list(small_scope_cases()) + list(view_defaults_cube()) + list(replacement_cube())
@@ -1411,6 +1420,33 @@ def replacement_cube():
             yield {'stmts': stmts, 'deny': deny, 'probe': {'kind': 'router', 'path': '/', 'params': []}}
 
 
+def same_permission_cube():
+    """one request in which the SAME permission name is checked on two different contexts, the decision table answering
+    differently for the two; for every policy flavour (new-style, constructor argument, the legacy authentication +
+    authorization pair in both statement orders) x answer style x permission:
+      (a) the ordinary view is granted and raises E1; the exception view for E1 carries the same explicit permission
+          (exception_only or dual) and is refused on the exception;
+      (b) the ordinary view is refused; a view registered for HTTPForbidden with the same explicit permission is granted
+          on the HTTPForbidden context (a protected forbidden view);
+      (c) as (a) with the exception view granted and the ordinary view's wrapper view (same permission) refused"""
+    flavours = [{'how': 'security'}, {'how': 'ctor'}, {'how': 'legacy', 'authz_first': True}, {'how': 'legacy', 'authz_first': False}]
+    for fl, style, perm, exc_only in itertools.product(flavours, ['obj', 'bool'], ['p1', 'p2'], [True, False]):
+        pid = PERM_IDS[perm]
+        pol = dict({'k': 'policy', 'style': style}, **fl)
+        v1 = {'k': 'view', 'dir': 'view', 'tag': 1, 'name': '', 'ctx': None, 'perm': perm, 'kind': 'func2', 'act': 'E1'}
+        ev = {'k': 'view', 'dir': 'view', 'tag': 2, 'name': '', 'ctx': 'E1', 'perm': perm, 'kind': 'func1', 'exception_only': exc_only}
+        yield {'stmts': [v1, ev, pol], 'deny': [[111, pid]], 'probe': {'kind': 'router', 'path': '/', 'params': []}}
+        yield {'stmts': [pol, ev, v1], 'deny': [[1, pid]], 'probe': {'kind': 'router', 'path': '/', 'params': []}}
+        v3 = {'k': 'view', 'dir': 'view', 'tag': 1, 'name': '', 'ctx': None, 'perm': perm, 'kind': 'class2', 'act': 'ok'}
+        fv = {'k': 'view', 'dir': 'view', 'tag': 2, 'name': '', 'ctx': 'HTTPForbidden', 'perm': perm, 'kind': 'func2', 'exception_only': exc_only}
+        yield {'stmts': [fv, pol, v3], 'deny': [[1, pid]], 'probe': {'kind': 'router', 'path': '/', 'params': []}}
+        yield {'stmts': [fv, pol, v3], 'deny': [[113, pid]], 'probe': {'kind': 'router', 'path': '/', 'params': []}}
+        if exc_only:
+            vb = dict(v3, ctx='CB', name='x')
+            va = dict(v3, tag=3, ctx='CA', name='x', preds=['a'])
+            yield {'stmts': [vb, va, pol], 'deny': [[3, pid]], 'probe': {'kind': 'render', 'ctx': 2, 'name': 'x', 'secure': True, 'params': []}}
+
+
 def search(ctx):
     """after a break: evaluate the property oracle on the implementation only (corpus, the small-scope
     enumeration, then a random stream at thorough volume)"""
@@ -1434,6 +1470,7 @@ def search(ctx):
     scan(small_scope_cases())
     scan(view_defaults_cube())
     scan(replacement_cube())
+    scan(same_permission_cube())
     exhaustive = ctx.time_left() >= 45
     if not [v for v in viol if not v.get('finding')]:
         scan(gen_cases(ctx.rng, ctx.n(1500, 6000), 3, big=True))
